@@ -309,6 +309,7 @@ class StopSim:
         r.running = r.started = r.reg = True
         self.trace = []
         self.term = []
+        self.suspended = set()     # generator bookkeeping only (the model has no such state)
 
     def is_running(self, a):
         x = self.A[a]
@@ -455,8 +456,11 @@ class StopSim:
                     continue
                 return
 
+    def live_suspended(self):
+        return {a for a in self.suspended if self.is_running(a)}
+
     def restart_ok(self, a):
-        if not (self.is_running(a) and self.A[a].reg) or self.term:
+        if not (self.is_running(a) and self.A[a].reg) or self.term or self.live_suspended():
             return False
         for b in range(self.n):
             x = self.A[b]
@@ -469,6 +473,12 @@ class StopSim:
     def drive(self, d):
         k = d[0]
         ok = True
+        if k == "suspend":
+            x = self.A[d[1]]
+            if self.is_running(d[1]) and x.sp == "idle" and not x.stopping and not any(y.ph is not None and y.par == d[1] for y in self.A):
+                self.suspended.add(d[1])
+                return 0
+            return 1
         if k == "restart":
             # at a quiet point a restart is not observable: same identities, running, registered
             return 0 if self.restart_ok(d[1]) else 1
@@ -511,6 +521,10 @@ CORPUS_SCENARIOS = [
     # a running subtree is restarted, later stopped: the restarted actors stop and leave the tree like first incarnations
     {"n": 4, "gated": [], "actions": [["spawn", 0, 1], ["spawn", 1, 2], ["spawn", 2, 3], ["restart", 1], ["stop", 2], ["restart", 1], ["stop", 1]], "tag": "restart-then-stop"},
     {"n": 3, "gated": [], "actions": [["spawn", 0, 1], ["spawn", 0, 2], ["restart", 0], ["stop", 2], ["restart", 1], ["stop", 0]], "tag": "restart-root-then-stop"},
+    # suspended descendants (a fault without directive) are stopped with the subtree like running ones
+    {"n": 5, "gated": [2, 4], "actions": [["spawn", 0, 1], ["spawn", 1, 2], ["spawn", 2, 3], ["spawn", 1, 4], ["suspend", 2], ["suspend", 4], ["stop", 1],
+                                          ["release", 2], ["release", 4]], "tag": "suspended-descendants"},
+    {"n": 3, "gated": [], "actions": [["spawn", 0, 1], ["spawn", 1, 2], ["suspend", 1], ["stop", 0]], "tag": "suspended-child-of-root"},
     # two stoppers on the same actor
     {"n": 4, "gated": [1, 3], "actions": [["spawn", 0, 1], ["spawn", 1, 2], ["spawn", 2, 3], ["stop", 1], ["stop", 1], ["release", 3], ["release", 1]], "tag": "double-stop"},
 ]
@@ -571,6 +585,13 @@ def gen_scenarios(ctx, ws=False):
             blocked = [a for a in range(n) if sim.A[a].sp == "post" and a in sim.gated]
             checked = [c for c in range(n) if sim.A[c].ph == "checked"]
             r = rng.random()
+            susp = sim.live_suspended()
+            running = [a for a in running if a not in susp] or running
+            can_suspend = [a for a in range(1, n) if sim.is_running(a) and a not in sim.suspended and sim.A[a].sp == "idle"
+                           and not any(y.ph is not None and y.par == a for y in sim.A)]
+            if can_suspend and rng.random() < 0.1:
+                do(["suspend", rng.choice(can_suspend)])
+                continue
             restartable = [a for a in running if sim.restart_ok(a)]
             if restartable and rng.random() < (0.3 if rflav else 0.1):
                 do(["restart", rng.choice(restartable)])
@@ -582,11 +603,13 @@ def gen_scenarios(ctx, ws=False):
                 do(["release", rng.choice(blocked)])
             elif r < 0.78 and fresh:
                 pool = running if running and rng.random() < 0.85 else started
+                pool = [a for a in pool if a not in susp] or [0]
                 do(["spawn_gated", rng.choice(pool), fresh.pop(0)])
             elif r < 0.88 and checked:
                 do(["spawn_release", rng.choice(checked)])
             elif r < 0.95 and fresh:
                 pool = running if running and rng.random() < 0.85 else started
+                pool = [a for a in pool if a not in susp] or [0]
                 do(["spawn", rng.choice(pool), fresh.pop(0)])
             elif blocked:
                 do(["release", rng.choice(blocked)])
@@ -601,7 +624,7 @@ def gen_scenarios(ctx, ws=False):
 def coq_daction(d):
     k = d[0]
     return {"spawn": "DSpawn %d %d", "spawn_gated": "DSpawnGated %d %d", "spawn_release": "DSpawnRelease %d",
-            "stop": "DStop %d", "release": "DRelease %d", "restart": "DRestart %d"}[k] % tuple(d[1:])
+            "stop": "DStop %d", "release": "DRelease %d", "restart": "DRestart %d", "suspend": "DSuspend %d"}[k] % tuple(d[1:])
 
 
 def scenario_oracle(sc, out):
